@@ -17,7 +17,7 @@ def DState.get (s : DState) (name : String) : Option (List DMsg) :=
 
 def rdialect (ms : Option (List DMsg)) : Option (UInt32 → Option Codec) :=
   ms.map (fun l id => (l.find? (·.id == id)).map (fun m =>
-    { crcExtra := m.rw.crcExtra, decode := Msg.decode m.rw,
+    { crcExtra := m.rw.crcExtra, decode := Msg.decode m.rw, encode := Msg.encode m.rw,
       specCrcExtra := match Spec.Msg.ofGo m.st with
         | some d => UInt8.ofNat (Spec.Msg.crcExtra d)
         | none => m.rw.crcExtra }))
@@ -47,6 +47,48 @@ def tlogReadAll (cfg : RCfg) : Nat → Stream → List String → List String
     | (.err (.perr e), s') => tlogReadAll cfg fuel s' (("RP" ++ encPErr e) :: acc)
     | (.err r, s') => tlogReadAll cfg fuel s' (("R" ++ encRRes r) :: acc)
     | (.entry ep t f, s') => tlogReadAll cfg fuel s' (s!"N{ep}/{t.1}/{t.2}/{encFrame f}" :: acc)
+
+def maskCrc (mask : Bool) (f : Frame) : String :=
+  if !mask then encFrame f else
+  match f with
+  | .v1 g => s!"v1:{g.seq}:{g.sys}:{g.comp}:*:{encMsg g.msg}"
+  | .v2 g =>
+    let sg := match g.sig with | none => "nil" | some s => toHex s
+    s!"v2:{g.incompat}:{g.compat}:{g.seq}:{g.sys}:{g.comp}:*:{g.linkId}:{g.ts}:{sg}:{encMsg g.msg}"
+
+def encRResM (mask : Bool) : RRes → String
+  | .frame f => "F" ++ maskCrc mask f
+  | r => encRRes r
+
+/-- model of a forwarding chain: read everything, write every frame unchanged, next hop reads the written bytes -/
+def hopChain (rcfg : RCfg) (wd : WDialect) (hasDialect : Bool) : Nat → Nat → Bytes → List String → List String
+  | 0, _, _, acc => acc.reverse
+  | fuel + 1, h, cur, acc =>
+    let s := bytesToItems cur
+    let (rs, _) := readAllD rcfg (s.length + 2) {} s []
+    let (outs, next) := rs.foldl (fun (a : List String × Bytes) r =>
+      match r with
+      | .frame f =>
+        (match frameWrite wd f with
+        | .ok (bs, _) => (a.1 ++ ["F" ++ maskCrc (h > 0 && hasDialect) f], a.2 ++ bs)
+        | .error e => (a.1 ++ ["F" ++ maskCrc (h > 0 && hasDialect) f, "W" ++ encWErr e], a.2))
+      | .terr .eof => a
+      | r => (a.1 ++ [encRRes r], a.2)) ([], [])
+    let same := if hasDialect then "*" else if next == cur then "same" else "diff"
+    hopChain rcfg wd hasDialect fuel (h + 1) next (s!"H{h}[fwd={same}]:{" ".intercalate outs}" :: acc)
+
+/-- SPEC of a forwarding chain (C08): without a dialect every hop sees what hop 0 saw and forwards identical bytes;
+    with a dialect every frame accepted at hop 0 is accepted at every later hop with the same header fields and the
+    same decoded message (the checksum may be recomputed). -/
+def hopSpec (rcfg : RCfg) (hasDialect : Bool) (hops : Nat) (cur : Bytes) : List String :=
+  let s := bytesToItems cur
+  let (rs, _) := readAllD { rcfg with specWindow := true } (s.length + 2) {} s []
+  let h0 := rs.filter (fun r => match r with | .terr .eof => false | _ => true)
+  let frames := h0.filter (fun r => match r with | .frame _ => true | _ => false)
+  let line0 := s!"H0[fwd={if hasDialect then "*" else "same"}]:{" ".intercalate (h0.map (encRResM false))}"
+  let later := (List.range hops).map (fun k =>
+    s!"H{k+1}[fwd={if hasDialect then "*" else "same"}]:{" ".intercalate (frames.map (encRResM hasDialect))}")
+  line0 :: later
 
 def initLine (r : Except Msg.InitErr Msg.RW) : String :=
   match r with
@@ -141,6 +183,15 @@ def step (ds : DState) (line : String) : DState × String :=
           | _ => (acc.1, acc.2 ++ ["bad-item"])) (0, [])
         " ".intercalate outs ++ "\t" ++ " ".intercalate souts
       | _, _, _, _, _ => "bad-op")
+  | ["hop", dn, stream, hops] =>
+    (ds, match decStream stream, hops.toNat? with
+      | some s, some h =>
+        let cur : Bytes := s.filterMap (fun it => match it with | .b x => some x | _ => none)
+        let rcfg : RCfg := { H := H, dialect := rdialect (ds.get dn) }
+        let hasD := dn != "-"
+        "|".intercalate (hopChain rcfg (wdialect (ds.get dn)) hasD (h + 1) 0 cur []) ++ "\t" ++
+          "|".intercalate (hopSpec rcfg hasD h cur)
+      | _, _ => "bad-op")
   | ["fix", dn, key, f] =>
     (ds, match keyOf key, decFrame f with
       | some k, some fr =>
